@@ -79,7 +79,12 @@ pub fn reload_check(r: &mut Runner) -> Result<(),String> {
         if s2.free_blocks!=free { return Err(format!("reload (hint {:?}): free {} became {}",hint,free,s2.free_blocks)); }
         if hint.is_some() {
             if d2.get_img().what_am_i()!=type_live { return Err(format!("reload: image type changed to {}",d2.get_img().what_am_i())); }
-            if d2.get_img().kind()!=kind_live && !matches!(type_live,a2kit::img::DiskImageType::DO|a2kit::img::DiskImageType::PO|a2kit::img::DiskImageType::D13|a2kit::img::DiskImageType::DOT2MG) {
+            // IMD, TD0 and raw IMG record the geometry but not the package (a 3 inch and a 5.25 inch disk of the same layout are the same
+            // bytes): for them only the layout has to survive
+            let layout = |k: &a2kit::img::DiskKind| { let s = format!("{}",k); match s.find("inch") { Some(i) => s[i..].to_string(), None => s } };
+            let geometry_only = matches!(type_live,a2kit::img::DiskImageType::IMD|a2kit::img::DiskImageType::TD0|a2kit::img::DiskImageType::IMG);
+            let same = if geometry_only { layout(&d2.get_img().kind())==layout(&kind_live) } else { d2.get_img().kind()==kind_live };
+            if !same && !matches!(type_live,a2kit::img::DiskImageType::DO|a2kit::img::DiskImageType::PO|a2kit::img::DiskImageType::D13|a2kit::img::DiskImageType::DOT2MG) {
                 return Err(format!("reload: disk kind changed from {} to {}",kind_live,d2.get_img().kind()));
             }
         }
